@@ -77,6 +77,9 @@ type GhostDecl struct {
 	Type string
 	Src  string
 	Pkg  string
+	// Local: a ghost LOCAL variable of the functions that use it — every invocation has its own
+	// instance, so a callee (including a recursive call) never changes the caller's
+	Local bool
 }
 
 type SpecFunc struct {
@@ -194,12 +197,13 @@ func (cs *ContractSet) parseContractText(text, file, pkgPath string) error {
 				return fail(fmt.Errorf("import alias \"path\""))
 			}
 			imports[f[0]] = strings.Trim(f[1], `"`)
-		case strings.HasPrefix(s, "ghost $"):
-			f := strings.SplitN(strings.TrimPrefix(s, "ghost $"), " ", 2)
+		case strings.HasPrefix(s, "ghost $") || strings.HasPrefix(s, "ghost local $"):
+			local := strings.HasPrefix(s, "ghost local $")
+			f := strings.SplitN(strings.TrimPrefix(strings.TrimPrefix(s, "ghost local $"), "ghost $"), " ", 2)
 			if len(f) != 2 {
 				return fail(fmt.Errorf("ghost $name type"))
 			}
-			cs.Ghosts[f[0]] = &GhostDecl{Name: f[0], Type: resolveTypeAliases(strings.TrimSpace(f[1]), pkgPath, imports), Src: src, Pkg: pkgPath}
+			cs.Ghosts[f[0]] = &GhostDecl{Name: f[0], Type: resolveTypeAliases(strings.TrimSpace(f[1]), pkgPath, imports), Src: src, Pkg: pkgPath, Local: local}
 			cur = nil
 		case strings.HasPrefix(s, "spec func ") || strings.HasPrefix(s, "spec macro "):
 			isMacro := strings.HasPrefix(s, "spec macro ")
